@@ -19,7 +19,8 @@ THEOREMS = ['Pk.C15.C15_history_independent_partial', 'Pk.C15.C15_params_untouch
             'Pk.C15.C15_concurrent_reads', 'Pk.C15.C15_params_roundtrip', 'Pk.C15.C15_set_get_id',
             'Pk.C15.C15_stop_sticky_witness', 'Pk.C15.C15_instances_independent', 'Pk.C15.C15_fit_by_value',
             'Pk.C15.C15_overwrite', 'Pk.C15.C15_clone_fresh',
-            'Pk.C15.C15_fitted_snapshot', 'Pk.C15.C15_reads_after_edits']
+            'Pk.C15.C15_fitted_snapshot', 'Pk.C15.C15_reads_after_edits',
+            'Pk.C15.C15_read_by_value', 'Pk.C15.C15_read_other_array']
 SOLVER = {'solver': 'cvxopt'}
 
 
@@ -749,6 +750,413 @@ def early_end_history(ctx, name, make, n_more):
     return hist, fails, [np.asarray(X).tolist() for X, _ in D]
 
 
+
+# ----------------------------------------------------------------------------- state OUTSIDE the estimator (the ambient state)
+
+def _warning_categories():
+    import sklearn.exceptions
+    import scipy.linalg
+    cats = [Warning, UserWarning, RuntimeWarning, FutureWarning, DeprecationWarning,
+            sklearn.exceptions.ConvergenceWarning, sklearn.exceptions.DataConversionWarning,
+            sklearn.exceptions.UndefinedMetricWarning, scipy.linalg.LinAlgWarning]
+    for nm in ('RankWarning', 'ComplexWarning', 'VisibleDeprecationWarning'):
+        c = getattr(getattr(np, 'exceptions', np), nm, None)
+        if isinstance(c, type) and issubclass(c, Warning):
+            cats.append(c)
+    return cats
+
+
+def describe_ambient(state):
+    out = []
+    for s in state:
+        if s[0] == 'warnings':
+            out.append(f"warnings.filterwarnings({s[1]!r}, category={s[2].__name__})")
+        elif s[0] == 'errstate':
+            out.append(f'np.errstate(all={s[1]!r})')
+        elif s[0] == 'np.random':
+            out.append(f'np.random.seed({s[1]}) + {s[2]} draws')
+        elif s[0] == 'random':
+            out.append(f'random.seed({s[1]})')
+        elif s[0] == 'thread':
+            out.append('called from a worker thread')
+        elif s[0] == 'env':
+            out.append('os.environ: ' + ', '.join(f'{k}={v}' for k, v in sorted(s[1].items())))
+        elif s[0] == 'logging':
+            out.append(f'logging level {s[1]}' + (', logging.disable(CRITICAL)' if s[2] else ''))
+        elif s[0] == 'printoptions':
+            out.append(f'np.set_printoptions(precision={s[1]})')
+    return '; '.join(out) if out else 'as the harness runs (PYTHONWARNINGS=ignore)'
+
+
+class Ambient:
+    """process state that is NOT an argument of the estimator: the warnings filters (a stack of (action, category), later
+    entries win), the numpy floating-point error state, the state of the global numpy / python random generators,
+    environment variables, the logging configuration, numpy print options. Everything is put back on exit. Warnings let
+    through are recorded (kept off the terminal), which does not change what the filters decide."""
+
+    def __init__(self, state, reseed=None):
+        self.state, self.reseed = state, reseed
+
+    def __enter__(self):
+        import contextlib, logging, os, random as pyrandom, warnings
+        self._stack = contextlib.ExitStack()
+        self._np, self._py = np.random.get_state(), pyrandom.getstate()
+        self._env = dict(os.environ)
+        self._print = np.get_printoptions()
+        lg = logging.getLogger('pykoop')
+        self._log = (lg.level, logging.root.manager.disable)
+        self.recorded = self._stack.enter_context(warnings.catch_warnings(record=True))
+        try:
+            for s in self.state:
+                if s[0] == 'warnings':
+                    warnings.filterwarnings(s[1], category=s[2])
+                elif s[0] == 'errstate':
+                    self._stack.enter_context(np.errstate(all=s[1]))
+                elif s[0] == 'np.random':
+                    np.random.seed(s[1])
+                    np.random.uniform(size=s[2])
+                elif s[0] == 'random':
+                    pyrandom.seed(s[1])
+                elif s[0] == 'env':
+                    os.environ.update(s[1])
+                elif s[0] == 'logging':
+                    lg.setLevel(s[1])
+                    logging.disable(logging.CRITICAL if s[2] else logging.NOTSET)
+                elif s[0] == 'printoptions':
+                    np.set_printoptions(precision=s[1])
+            if self.reseed is not None:
+                # estimators whose nested defaults are unseeded draw from the global generator: give every fit the same one
+                np.random.seed(self.reseed)
+        except BaseException:
+            self.__exit__(None, None, None)
+            raise
+        return self
+
+    def __exit__(self, *exc):
+        import logging, os, random as pyrandom
+        self._stack.close()
+        np.random.set_state(self._np)
+        pyrandom.setstate(self._py)
+        for k in list(os.environ):
+            if k not in self._env:
+                del os.environ[k]
+        os.environ.update(self._env)
+        np.set_printoptions(**self._print)
+        logging.getLogger('pykoop').setLevel(self._log[0])
+        logging.disable(self._log[1])
+        return False
+
+
+def call_under(state, fn, reseed=None, timeout=120):
+    """run fn() with the ambient state in force, in a worker thread when the state says so (np.errstate is local to the
+    calling context, so the whole state is set up inside the thread that makes the call). Returns (status, value):
+    ('ok', result) / ('raised', exception) / ('timeout', None)"""
+    def body():
+        with Ambient(state, reseed):
+            return fn()
+    if not any(s[0] == 'thread' for s in state):
+        try:
+            return 'ok', body()
+        except Exception as ex:
+            return 'raised', ex
+    box = {}
+
+    def work():
+        try:
+            box['out'] = ('ok', body())
+        except Exception as ex:
+            box['out'] = ('raised', ex)
+    t = threading.Thread(target=work, daemon=True)
+    t.start()
+    t.join(timeout)
+    return box.get('out', ('timeout', None))
+
+
+def may_legitimately_raise(state):
+    """turning warnings / floating-point flags into exceptions is the caller asking for an exception"""
+    return any((s[0] == 'warnings' and s[1] == 'error') or (s[0] == 'errstate' and s[1] == 'raise') for s in state)
+
+
+def ambient_states(rng, n_extra):
+    """the reference state (every warning ignored: what the harness itself runs under) followed by states that differ from it
+    in ONE respect or in a random combination; the first five are always present"""
+    cats = _warning_categories()
+    import sklearn.exceptions
+    specific = [c for c in cats if c is not Warning]
+
+    def one(kind):
+        if kind == 'filter':
+            return [('warnings', rng.choice(['default', 'always', 'once', 'module']), Warning)]
+        if kind == 'ignore-one':        # everything shown, one category silenced
+            return [('warnings', rng.choice(['always', 'default']), Warning), ('warnings', 'ignore', rng.choice(specific))]
+        if kind == 'show-one':          # everything silenced, one category shown
+            return [('warnings', 'ignore', Warning), ('warnings', rng.choice(['always', 'default']), rng.choice(specific))]
+        if kind == 'error-one':
+            return [('warnings', rng.choice(['ignore', 'default']), Warning), ('warnings', 'error', rng.choice(specific))]
+        if kind == 'error':
+            return [('warnings', 'error', Warning)]
+        if kind == 'errstate':
+            return [('errstate', rng.choice(['ignore', 'warn', 'raise']))]
+        if kind == 'rng':
+            return [('np.random', rng.randint(0, 2 ** 31 - 1), rng.randint(0, 50)), ('random', rng.randint(0, 2 ** 31 - 1))]
+        if kind == 'thread':
+            return [('thread',)]
+        if kind == 'env':
+            return [('env', {'PYTHONWARNINGS': rng.choice(['ignore', 'default', 'error', 'always']),
+                             'PYTHONHASHSEED': str(rng.randint(0, 99)), 'COLUMNS': rng.choice(['40', '200']),
+                             'TZ': rng.choice(['UTC', 'Asia/Tokyo']), 'LANG': rng.choice(['C', 'de_DE.UTF-8'])})]
+        if kind == 'logging':
+            import logging
+            return [('logging', rng.choice([logging.DEBUG, logging.INFO, logging.WARNING, logging.CRITICAL]), rng.choice([True, False]))]
+        return [('printoptions', rng.choice([2, 4, 12]))]
+    conv = sklearn.exceptions.ConvergenceWarning
+    states = [[('warnings', 'ignore', Warning)],
+              [('warnings', 'always', Warning)],
+              [('warnings', 'default', Warning)],
+              [('warnings', 'always', Warning), ('warnings', 'ignore', rng.choice([conv, UserWarning, RuntimeWarning]))],
+              [('warnings', 'ignore', Warning), ('warnings', 'always', rng.choice([conv, UserWarning, RuntimeWarning]))]]
+    kinds = ['filter', 'ignore-one', 'show-one', 'error-one', 'error', 'errstate', 'rng', 'thread', 'env', 'logging', 'printoptions']
+    for i in range(n_extra):
+        if i % 3 == 2:
+            st_ = []
+            for k in rng.sample(kinds, rng.choice([2, 3])):
+                st_ += one(k)
+            states.append(st_)
+        else:
+            states.append(one(rng.choice(kinds)))
+    return states
+
+
+def degenerate(rng, X, kw, mode, k=None):
+    """data that makes estimators COMPLAIN (the branches that look at the complaint are where the ambient state can leak in):
+    few distinct samples (repeated rows), a constant column, badly scaled columns"""
+    X = np.array(X, dtype=float).copy()
+    e = 1 if kw.get('episode_feature') else 0
+    if mode == 'few-distinct':
+        k = k or rng.choice([1, 2, 3])
+        rows = X[rng.sample(range(X.shape[0]), min(k, X.shape[0])), e:]
+        order = [rng.randrange(rows.shape[0]) for _ in range(X.shape[0])]
+        for j in range(rows.shape[0]):
+            order[j] = j                 # every distinct row occurs
+        X[:, e:] = rows[order, :]
+    elif mode == 'constant-column':
+        X[:, rng.randrange(e, X.shape[1])] = rng.choice([0.0, 1.0, -0.5])
+    elif mode == 'scaled':
+        X[:, e:] *= rng.choice([1e-9, 1e-4, 1e5, 1e120])
+    return X
+
+
+def clusterers(rng):
+    """wrapped scikit-learn estimators for ClusterCenters / GaussianMixtureRandomCenters: random sizes and seeds, short
+    iteration budgets (they report what they think of the data with warnings)"""
+    n = rng.choice([3, 4, 5, 6])
+    rs = rng.randint(0, 999)
+    return [
+        (f'KMeans(n_clusters={n}, n_init=1, random_state={rs})', n,
+         lambda: sklearn.cluster.KMeans(n_clusters=n, n_init=1, random_state=rs)),
+        (f'KMeans(n_clusters={n}, n_init=3, max_iter=1, random_state={rs})', n,
+         lambda: sklearn.cluster.KMeans(n_clusters=n, n_init=3, max_iter=1, random_state=rs)),
+        (f'MiniBatchKMeans(n_clusters={n}, n_init=1, random_state={rs})', n,
+         lambda: sklearn.cluster.MiniBatchKMeans(n_clusters=n, n_init=1, random_state=rs)),
+        (f'GaussianMixture(n_components={min(n, 3)}, max_iter=1, reg_covar=1e-3, random_state={rs})', min(n, 3),
+         lambda: sklearn.mixture.GaussianMixture(n_components=min(n, 3), max_iter=1, reg_covar=1e-3, random_state=rs)),
+    ]
+
+
+def ambient_zoo(ctx, Z):
+    """the zoo of the history sweeps plus composites around wrapped scikit-learn estimators with random parameters"""
+    rng = ctx.rng
+    out = [dict(z) for z in Z if not z['tags'].get('iterative')]
+    cl = clusterers(rng)
+    picks = cl if ctx.tier != 'quick' else [cl[0], rng.choice(cl[1:])]
+    for label, n, mk in picks:
+        def add(name, make, kind, tags):
+            out.append({'name': name, 'make': make, 'kind': kind, 'params': {}, 'tol': 1e-9, 'tags': dict(tags, n_clusters=n)})
+        add(f'ClusterCenters({label})', lambda mk=mk: pykoop.ClusterCenters(mk()), 'centers', {})
+        add(f'RbfLiftingFn(ClusterCenters({label}))',
+            lambda mk=mk: pykoop.RbfLiftingFn(rbf='gaussian', centers=pykoop.ClusterCenters(mk())), 'lifting', {})
+        add(f'KoopmanPipeline(RbfLiftingFn(ClusterCenters({label})), Edmd)', lambda mk=mk: pykoop.KoopmanPipeline(
+            lifting_functions=[('rbf', pykoop.RbfLiftingFn(rbf='thin_plate', centers=pykoop.ClusterCenters(mk())))],
+            regressor=pykoop.Edmd(alpha=0.1)), 'pipeline', {})
+        add(f'SplitPipeline(state: RbfLiftingFn(ClusterCenters({label})))', lambda mk=mk: pykoop.SplitPipeline(
+            lifting_functions_state=[('rbf', pykoop.RbfLiftingFn(centers=pykoop.ClusterCenters(mk())))],
+            lifting_functions_input=None), 'lifting', {})
+    gm_it, gm_rs = rng.choice([1, 2]), rng.randint(0, 999)
+    out.append({'name': f'GaussianMixtureRandomCenters(GaussianMixture(max_iter={gm_it}))', 'kind': 'centers', 'params': {},
+                'tol': 1e-9, 'tags': {},
+                'make': lambda: pykoop.GaussianMixtureRandomCenters(n_centers=4, random_state=gm_rs, estimator=sklearn.mixture.GaussianMixture(
+                    n_components=2, max_iter=gm_it, reg_covar=1e-3, random_state=gm_rs))})
+    return out
+
+
+def wrapped_reference(est, X, reseed):
+    """ClusterCenters: the centres are BY DEFINITION those of the wrapped scikit-learn estimator fitted on the same data, so
+    scikit-learn alone (same parameters, same seed, no pykoop code) says what centers_ / n_centers_ must be"""
+    if not isinstance(est, pykoop.ClusterCenters):
+        return None
+    wrapped = sklearn.base.clone(est.estimator) if est.estimator is not None else sklearn.cluster.KMeans()
+    status, out = call_under([('warnings', 'ignore', Warning)], lambda: wrapped.fit(np.array(X, dtype=float)), reseed)
+    if status != 'ok':
+        return None
+    c = getattr(out, 'cluster_centers_', None)
+    if c is None:
+        c = getattr(out, 'means_', None)
+    if c is None:
+        return None
+    c = np.asarray(c)
+    got = np.asarray(est.centers_)
+    if got.shape != c.shape or est.n_centers_ != c.shape[0]:
+        return (f'centers_ has shape {got.shape}, n_centers_={est.n_centers_}; the wrapped {type(wrapped).__name__} with the same '
+                f'parameters fitted directly on the same data has {c.shape[0]} centres (shape {c.shape})')
+    if not np.allclose(got, c, rtol=1e-9, atol=1e-9):
+        return (f'centers_ differs from the centres of the wrapped {type(wrapped).__name__} fitted directly on the same data by '
+                f'{float(np.max(np.abs(got - c))):.3g}')
+    return None
+
+
+def same_fit_ambient(z, a, b):
+    """same_fit, except that for estimators compared with a tolerance (wrapped threaded algorithms) real SCALAR attributes
+    (KMeans.inertia_, GaussianMixture.lower_bound_: sums whose order of accumulation is not fixed) are compared with that
+    tolerance too instead of bit for bit"""
+    d = same_fit(z, a, b)
+    if not d or z['tol'] <= 0:
+        return d
+    left = []
+    prefix = []
+    for path in d.split(','):
+        names = path.split('.')
+        if len(names) == 1 and prefix and not hasattr(a, names[0]):
+            names = prefix + names          # (same_fit joins the attributes of a nested estimator with commas as well)
+        prefix = names[:-1]
+        x, y = a, b
+        try:
+            for nm in names:
+                x, y = getattr(x, nm), getattr(y, nm)
+        except AttributeError:
+            left.append(path)
+            continue
+        real = lambda v: isinstance(v, (float, np.floating)) and not isinstance(v, bool)
+        if real(x) and real(y) and (x == y or abs(x - y) <= z['tol'] * (1 + abs(x) + abs(y)) or (np.isnan(x) and np.isnan(y))):
+            continue
+        left.append(path)
+    return ','.join(left) if left else None
+
+
+def ambient_sweep(ctx, z, n_extra, modes):
+    """fresh estimators with the SAME parameters fitted on the SAME data, one per ambient state: all fitted states must agree
+    (with each other, and with scikit-learn alone where the estimator wraps one); then the estimator fitted under the
+    reference state is re-fitted under another state (must still agree) and its read-only calls are repeated under other
+    states (same answers, fitted state untouched)"""
+    rng = ctx.rng
+    fails = []
+    X0, kw = data_sets(rng, z['kind'])[0]
+    nondet = bool(z['tags'].get('nondet'))
+    reseed = rng.randint(0, 2 ** 31 - 1) if nondet else None
+    zt = z if not nondet else dict(z, tol=max(z['tol'], 1e-9))
+    for mode in modes:
+        k = None
+        if mode == 'few-distinct' and z['tags'].get('n_clusters'):
+            k = rng.randint(1, z['tags']['n_clusters'] - 1)         # fewer distinct samples than clusters asked for
+        X = degenerate(rng, X0, kw, mode, k)
+        Xc = X.copy()
+        states = ambient_states(rng, n_extra)
+        case = lambda **more: dict({'estimator': z['name'], 'params': repr(z['make']().get_params(deep=True))[:1500],
+                                    'data': mode, 'X': Xc.tolist(), 'fit_kwargs': kw}, **more)
+        tags = {'estimator': z['name'], 'part': 'ambient', 'data': mode}
+        status, ref = call_under(states[0], lambda: z['make']().fit(X, **kw), reseed)
+        ctx.count('ambient:fits')
+        ctx.count('ambient:data:' + mode)
+        if status != 'ok':
+            # the data is too degenerate for this estimator: the other states must refuse it too
+            ctx.count('ambient:reference_fit_refused')
+            for state in states[1:3]:
+                s2, o2 = call_under(state, lambda: z['make']().fit(X, **kw), reseed)
+                if s2 == 'ok' and status == 'raised':
+                    fails.append((f'data [{mode}]: fit raised {type(ref).__name__} under [{describe_ambient(states[0])}] but '
+                                  f'succeeded under [{describe_ambient(state)}]',
+                                  case(ambient_a=describe_ambient(states[0]), ambient_b=describe_ambient(state)), tags))
+            continue
+        if nondet:
+            # is the class repeatable at all once the global generator is pinned? (scipy's QMC engines draw fresh entropy)
+            s2, again = call_under(states[0], lambda: z['make']().fit(X, **kw), reseed)
+            if s2 != 'ok' or same_fit_ambient(zt, ref, again):
+                ctx.count('ambient:not_repeatable_even_with_pinned_generator')
+                continue
+        why = wrapped_reference(ref, X, reseed)
+        if why:
+            fails.append((f'data [{mode}], fitted under [{describe_ambient(states[0])}]: {why}',
+                          case(ambient_a=describe_ambient(states[0])), dict(tags, oracle='wrapped')))
+        for state in states[1:]:
+            for s in state:
+                ctx.count('ambient:' + s[0] + (':' + s[1] if s[0] in ('warnings', 'errstate') else ''))
+            status, est = call_under(state, lambda: z['make']().fit(X, **kw), reseed)
+            ctx.count('ambient:fits')
+            if status == 'timeout':
+                ctx.count('ambient:timeout')
+                continue
+            if status == 'raised':
+                if may_legitimately_raise(state):
+                    ctx.count('ambient:raised_on_request')
+                    continue
+                fails.append((f'data [{mode}]: fit raised {type(est).__name__} ({str(est)[:120]}) under [{describe_ambient(state)}] '
+                              f'but succeeded under [{describe_ambient(states[0])}]',
+                              case(ambient_a=describe_ambient(states[0]), ambient_b=describe_ambient(state)), tags))
+                continue
+            d = same_fit_ambient(zt, ref, est)
+            if d:
+                fails.append((f'data [{mode}]: two freshly constructed estimators with the same parameters fitted on the same data have '
+                              f'different fitted states (attributes: {d}); the only difference is state outside the estimator: '
+                              f'[{describe_ambient(states[0])}] versus [{describe_ambient(state)}]',
+                              case(ambient_a=describe_ambient(states[0]), ambient_b=describe_ambient(state)),
+                              dict(tags, attr=d.split(',')[0].split('.')[0])))
+                continue
+            why = wrapped_reference(est, X, reseed)
+            if why:
+                fails.append((f'data [{mode}], fitted under [{describe_ambient(state)}]: {why}',
+                              case(ambient_a=describe_ambient(state)), dict(tags, oracle='wrapped')))
+        if not np.array_equal(X, Xc):
+            fails.append((f'data [{mode}]: fit modified its input array', case(), dict(tags, part='input')))
+            continue
+        # the SAME instance re-fitted after the caller changed the ambient state
+        state = rng.choice(states[1:3])
+        twin = copy.deepcopy(ref)
+        status, _ = call_under(state, lambda: twin.fit(X, **kw), reseed)
+        ctx.count('ambient:refits')
+        if status == 'ok':
+            d = same_fit_ambient(zt, ref, twin)
+            if d:
+                fails.append((f'data [{mode}]: an estimator fitted under [{describe_ambient(states[0])}] and fitted again on the same data '
+                              f'under [{describe_ambient(state)}] ends in a different fitted state (attributes: {d})',
+                              case(ambient_a=describe_ambient(states[0]), ambient_b=describe_ambient(state)),
+                              dict(tags, attr=d.split(',')[0].split('.')[0])))
+        # read-only calls under other ambient states: same answers, nothing written
+        rd = reads(z, ref, X, kw)[:2]
+        before = digest(fitted_attrs(ref)) + digest(ref.get_params(deep=True))
+        for name, th in rd:
+            s0, a = call_under(states[0], th)
+            if s0 != 'ok' or not isinstance(a, np.ndarray):
+                continue
+            for state in rng.sample(states[1:], min(2, len(states) - 1)):
+                s1, b = call_under(state, th)
+                ctx.count('ambient:reads')
+                if s1 != 'ok':
+                    if s1 == 'raised' and not may_legitimately_raise(state):
+                        fails.append((f'data [{mode}]: {name} raised {type(b).__name__} under [{describe_ambient(state)}] but answered '
+                                      f'under [{describe_ambient(states[0])}]',
+                                      case(ambient_a=describe_ambient(states[0]), ambient_b=describe_ambient(state)), dict(tags, part='ambient-read')))
+                    continue
+                same = a.shape == b.shape and a.dtype == b.dtype and (
+                    np.array_equal(a, b, equal_nan=True) if a.dtype.kind in 'fc' else np.array_equal(a, b))
+                if not same:
+                    fails.append((f'data [{mode}]: {name} on the same fitted estimator and the same data answers differently under '
+                                  f'[{describe_ambient(states[0])}] and under [{describe_ambient(state)}]',
+                                  case(ambient_a=describe_ambient(states[0]), ambient_b=describe_ambient(state)), dict(tags, part='ambient-read')))
+        if digest(fitted_attrs(ref)) + digest(ref.get_params(deep=True)) != before:
+            fails.append((f'data [{mode}]: a read-only call under another ambient state changed the fitted state or the parameters',
+                          case(), dict(tags, part='ambient-read')))
+    return fails
+
+
 def run(ctx):
     ctx.rule = ('for every estimator class of the package (lifting functions, pipelines, 7 centre generators, kernel '
                 'approximations, Tsvd, regressors incl. LMI with cvxopt): random histories of fit(d_i) / read-only calls / '
@@ -765,14 +1173,29 @@ def run(ctx):
                 '(objective_log_, n_iter_, stop_reason_, coef_, P_, ...) are compared with a fresh clone fitted on the same data '
                 'under the same circumstances (same flag state: known finding F-stop is not re-reported), and objective_log_ '
                 'must equal the objective values of the first sub-problems the solver returned as optimal DURING THIS FIT '
-                '(recorded by the harness at the picos.Problem.solve boundary); no solved sub-problem => all-zero coef_')
+                '(recorded by the harness at the picos.Problem.solve boundary); no solved sub-problem => all-zero coef_; '
+                'state OUTSIDE the estimator: for every class of the zoo (plus ClusterCenters / RbfLiftingFn / KoopmanPipeline / '
+                'SplitPipeline / GaussianMixtureRandomCenters around wrapped KMeans, MiniBatchKMeans, GaussianMixture with random '
+                'sizes, seeds and short iteration budgets) freshly constructed estimators with the same parameters are fitted on '
+                'the same data (regular, and data that makes estimators complain: fewer distinct samples than clusters, a constant '
+                'column, badly scaled) once per ambient state - warnings filters (ignore / default / always / once / module / error, '
+                'for all warnings or one category over an opposite base), np.errstate (ignore / warn / raise), the global numpy and '
+                'python generators reseeded and advanced, a worker thread as caller, environment variables, logging level, numpy '
+                'print options, random combinations - and all fitted states must agree (an exception is excused only where the '
+                'state asks for one); ClusterCenters is also compared with the wrapped scikit-learn estimator fitted directly; '
+                'the same instance re-fitted under another state and read-only calls under other states must agree too '
+                '(unseeded defaults: the global generator is pinned in front of every fit)')
     ctx.explanation = ('level "other": the Lean machine (theorems C15_*) states which histories must be indistinguishable; '
                        'this check executes real histories and verifies the implementation respects those equalities. '
                        'Bit-exact for deterministic estimators, tolerance for KMeans / GaussianMixture / SDP solver. '
                        'C15_overwrite / C15_history_independent_partial demand that a fit OVERWRITES every fitted attribute '
                        'whatever path it takes: the early-end sweep drives the real iterative regressors through the short '
                        'paths (nothing solved, first sub-problem not optimal, stop between sub-problems) on estimators that '
-                       'already carry a fitted state, with an expectation for the objective log computed by the harness itself.')
+                       'already carry a fitted state, with an expectation for the objective log computed by the harness itself. '
+                       'C15_fit_by_value makes the fitted state a function of (parameters, data) ONLY: the ambient sweep varies what '
+                       'is not an argument of that function (warnings filters, floating-point error state, global generators, calling '
+                       'thread, environment, logging) on data that drives the estimators into their complaining branches, and '
+                       'demands identical fitted states; for ClusterCenters the expectation comes from scikit-learn alone.')
     ctx.proof_obligations('Properties.C15', THEOREMS)
     Z = zoo(ctx.rng, ctx.tier == 'thorough')
     reps = 1 if ctx.tier == 'quick' else 6
@@ -815,6 +1238,25 @@ def run(ctx):
                 ctx.fail(f'{name}: {why}', {'estimator': name, 'params': {k: v for k, v in make().get_params().items()},
                                             'history': hist, 'fit_kwargs': {'n_inputs': 1, 'episode_feature': True},
                                             'data': data}, tags)
+    # state OUTSIDE the estimator: the same parameters and data under different warnings filters / floating-point error
+    # states / global generator states / calling threads / environments / logging configurations
+    quick = ctx.tier == 'quick'
+    for z in (ctx.attempt('ambient zoo', lambda: ambient_zoo(ctx, Z)) or []):
+        if z['tags'].get('lmi'):
+            n_extra, modes = (1 if quick else 4), ['regular']
+        elif z['kind'] in ('regressor', 'tsvd'):
+            n_extra, modes = (4 if quick else 12), ['regular', ctx.rng.choice(['constant-column', 'scaled'])]
+        else:
+            n_extra, modes = (5 if quick else 14), ['few-distinct', ctx.rng.choice(['regular', 'constant-column', 'scaled'])]
+            if not quick:
+                modes = ['few-distinct', 'regular', 'constant-column', 'scaled']
+        fails = ctx.attempt(f"ambient sweep of {z['name']}", lambda: ambient_sweep(ctx, z, n_extra, modes))
+        if fails is None:
+            continue
+        ctx.count('ambient:sweeps')
+        ctx.record_case({'estimator': z['name'], 'sweep': 'ambient', 'data': modes}, True)
+        for why, case, tags in fails:
+            ctx.fail(f"{z['name']}: {why}", case, tags)
     res = probe_stop(ctx)
     if res:
         ctx.fail(res[0], {'probe': 'stop_request'}, res[1])
